@@ -381,6 +381,8 @@ def value_return(res, *args):
 
 
 def convert_nan(value, default=Error.errors['#NUM!']):
+    if isinstance(value, complex):
+        return default
     return value if np.isfinite(value) else default
 
 
@@ -418,6 +420,10 @@ def wrap_ufunc(
                 r = convert_nan(r)
         except FoundError as ex:
             r = ex.err
+        except ZeroDivisionError:
+            r = Error.errors['#DIV/0!']
+        except OverflowError:
+            r = Error.errors['#NUM!']
         except (ValueError, TypeError):
             r = Error.errors['#VALUE!']
         return r
